@@ -76,6 +76,11 @@ func parseBEv(x *Sx) bEv {
 
 // onceSchedule fires immediately the first time, then never; done is closed when Next is asked the second time, i.e. after the
 // runner's run() has returned
+type livedRunner struct {
+	r   *storage.AsyncBlockRunner
+	sch *onceSchedule
+}
+
 type onceSchedule struct {
 	n    int
 	done chan struct{}
@@ -163,6 +168,7 @@ func runBlocksScript(evs []bEv, gen func(step func(bEv) bool)) *blocksRun {
 		id    int64
 	}
 	open := map[int]*openTx{}
+	runners := map[int]*livedRunner{}
 	step := func(e bEv) bool {
 		idx := len(br.Evs)
 		switch e.Kind {
@@ -200,8 +206,16 @@ func runBlocksScript(evs []bEv, gen func(step func(bEv) bool)) *blocksRun {
 			br.Aborted = append(br.Aborted, open[e.W].id)
 			delete(open, e.W)
 		case "run":
-			sch := &onceSchedule{done: make(chan struct{})}
-			runner := storage.NewAsyncBlockRunner(errLogger{logging.FromContext(ctx), &br.RunErr}, st.Bun, storage.AsyncBlockRunnerConfig{MaxBlockSize: e.Size, Schedule: sch})
+			// one long-lived worker per block size (a deployed worker lives for the life of the process: whatever it remembers
+			// between ticks is part of what is explored); each `run` event is one tick of its schedule
+			lr := runners[e.Size]
+			if lr == nil {
+				sch := &onceSchedule{}
+				lr = &livedRunner{sch: sch, r: storage.NewAsyncBlockRunner(errLogger{logging.FromContext(ctx), &br.RunErr}, st.Bun, storage.AsyncBlockRunnerConfig{MaxBlockSize: e.Size, Schedule: sch})}
+				runners[e.Size] = lr
+			}
+			lr.sch.n, lr.sch.done = 0, make(chan struct{})
+			sch, runner := lr.sch, lr.r
 			go func() { _ = runner.Run(ctx) }()
 			select {
 			case <-sch.done:
